@@ -43,6 +43,8 @@ SPECIAL_BASE_FAULTS = (
     + [f"{g}-operand" for g in ("empty-$and", "empty-$or", "empty-$and_any_order", "empty-$not", "not-2-args", "not-3-args")]
     + ["not-2-args-deref-field", "empty-$or-deref-field"]
 )
+# the extra macro file that holds the only definition of a macro the rule uses cannot be read (the rule has no macros of its own)
+MACRO_FILE_FAULTS = ["macro-file-" + f for f in ("missing", "directory", "dangling-symlink", "unreadable", "one-of-two-missing")]
 RULE_FAULTS = (
     ["pattern-file-" + f for f in FILE_FAULTS]
     + ["yaml-broken", "pattern-missing", "pattern-null", "pattern-scalar", "pattern-int", "pattern-mapping", "config-null", "config-scalar", "config-list",
@@ -58,11 +60,12 @@ RULE_FAULTS = (
        "undefined-macro-in-last-macro-body", "undefined-macro-in-first-macro-body-extra-file",
        "macro-pattern-int", "macro-pattern-null", "macro-pattern-missing", "macro-name-missing", "macro-entry-scalar", "macro-pattern-int-extra-file"]
     + SPECIAL_BASE_FAULTS
+    + MACRO_FILE_FAULTS
 )
 INPUT_FAULTS = ["input-file-" + f for f in FILE_FAULTS] + ["input-file-utf16"]
-BINARY_FAULTS = ["objdump-absent", "objdump-exit1", "objdump-exit3", "objdump-signal", "objdump-half-then-fail", "objdump-banner-then-fail", "sections-all-absent", "archive-unreadable-member"]
+BINARY_FAULTS = ["objdump-absent-llvm-objdump-present", "objdump-absent", "objdump-exit1", "objdump-exit3", "objdump-signal", "objdump-half-then-fail", "objdump-banner-then-fail", "sections-all-absent", "archive-unreadable-member"]
 # rule faults whose base rule is a fixed text listing (the verdict must depend on the faulted entry) are assembly-mode cells only
-ASSEMBLY_ONLY = set(SPECIAL_BASE_FAULTS) | {"cfg-valid-addr-range-unquoted-bounds", "cfg-valid-addr-range-falsy"}
+ASSEMBLY_ONLY = set(SPECIAL_BASE_FAULTS) | set(MACRO_FILE_FAULTS) | {"cfg-valid-addr-range-unquoted-bounds", "cfg-valid-addr-range-falsy"}
 FAULTS = {"assembly": RULE_FAULTS + INPUT_FAULTS, "binary": [f for f in RULE_FAULTS if f not in ASSEMBLY_ONLY] + INPUT_FAULTS + BINARY_FAULTS}
 FLOORS = {}
 # Faults the tree is known to swallow and that are NOT among the statement's examples of wrongly typed entries that matter: an unknown
@@ -387,6 +390,18 @@ def evaluate(case):
         pattern = [{"call": ["valid_addr"]}]
         base_cfg = {"valid_addr_range": {"min": f"0x{lo:x}", "max": f"0x{hi:x}"}}
     base_macros = None
+    base_macro_files = None
+    if fault in MACRO_FILE_FAULTS:
+        if binary:
+            ev.tags.append("fault-not-applicable-here")
+            return ev
+        a0 = [0x10, 0x401000, 0xadd0][case["pos"] % 3]
+        L = [[format(a0, "x"), "push", ["%rbp"], ["%rbp"]], [format(a0 + 1, "x"), "nop", [], []], [format(a0 + 2, "x"), "ret", [], []]]
+        pattern = ["push", "@yext_", "ret"] if case["pos"] % 2 else ["push", {"@yext_": {"times": 1}}, "ret"]
+        input_path = sc.write("c17.s", render(att_view(L)))
+        base_macro_files = [sc.write("c17_ext_macros.yaml", jasm_io.dump_yaml({"macros": [{"name": "@yext_", "pattern": "nop" if case["pos"] % 4 < 2 else [{"$or": ["nop", "zzq"]}]}]}))]
+        if fault == "macro-file-one-of-two-missing":
+            base_macro_files.append(sc.write("c17_ext2_macros.yaml", jasm_io.dump_yaml({"macros": [{"name": "@yunused_", "pattern": "zzq"}]})))
     if fault in SPECIAL_BASE_FAULTS:
         if binary:
             ev.tags.append("fault-not-applicable-here")
@@ -412,7 +427,7 @@ def evaluate(case):
         input_path = sc.write("c17.s", render(att_view(L)))
     doc = jasm_io.make_doc(pattern, config=base_cfg, macros=base_macros)
     rule_path = sc.write("c17_rule.yaml", jasm_io.rule_text(doc))
-    base = jasm_io.match_files(rule_path, input_path, mode="list", search="all", binary=binary)
+    base = jasm_io.match_files(rule_path, input_path, mode="list", search="all", binary=binary, macros=base_macro_files)
     if base[0] != "ok" or not base[1]:
         ev.tags.append("base-not-found")
         return ev
@@ -429,6 +444,26 @@ def evaluate(case):
         kind = fault[len("input-file-"):]
         input_path = make_path_fault(kind, sc, "c17_faulty_input", input_path)
         needs_nodac = kind == "unreadable"
+    elif fault in MACRO_FILE_FAULTS:
+        kind = fault[len("macro-file-"):]
+        if kind == "one-of-two-missing":
+            # the file with the definition is gone, the other one (which defines something else) is readable
+            macros = [make_path_fault("missing", sc, "c17_faulty_macros.yaml", base_macro_files[0]), base_macro_files[1]]
+            if case["pos"] % 2:
+                macros.reverse()
+        else:
+            macros = [make_path_fault(kind, sc, "c17_faulty_macros.yaml", base_macro_files[0])]
+            needs_nodac = kind == "unreadable"
+    elif fault == "objdump-absent-llvm-objdump-present":
+        # no objdump on PATH, but a program of another name that disassembles in another format: the input is not scanned by what
+        # the listing parser reads, so the operation must fail like with no disassembler at all
+        d = sc.path("llvmbin")
+        os.makedirs(d, exist_ok=True)
+        for nm in ("llvm-objdump", "gobjdump-15", "objdump-llvm"):
+            with open(os.path.join(d, nm), "w") as f_:
+                f_.write("#!/bin/sh\nprintf '\\nx.o:\\tfile format elf64-x86-64\\n\\nDisassembly of section .text:\\n\\n0000000000000000 <main>:\\n       0: 55                            pushq   %%rbp\\n       1: 48 89 e5                      movq    %%rsp, %%rbp\\n       4: c3                            retq\\n'\nexit 0\n")
+            os.chmod(os.path.join(d, nm), 0o755)
+        path_override = d
     elif fault.startswith("objdump-"):
         kind = fault[len("objdump-"):]
         if kind == "absent":
@@ -478,7 +513,7 @@ def evaluate(case):
     call = run_entry(entry, rule_path, input_path, binary, macros, sc, path_override)
     if needs_nodac:
         # control: the same entry point on the intact pair, in the same kind of capability-less child, must still say 'found'
-        control = run_entry(entry, good_rule_path, good_input_path, binary, None, sc, None)
+        control = run_entry(entry, good_rule_path, good_input_path, binary, base_macro_files, sc, None)
         res = faults.run_without_dac(lambda: (control(), call()))
         if res[0] != "done":
             ev.tags.append("cell-not-exercised:" + res[1][:40])
@@ -489,7 +524,7 @@ def evaluate(case):
         outcomes = res[1][1]
     else:
         outcomes = call()
-    for p in (sc.path("c17_faulty_rule.yaml"), sc.path("c17_faulty_input")):
+    for p in (sc.path("c17_faulty_rule.yaml"), sc.path("c17_faulty_input"), sc.path("c17_faulty_macros.yaml")):
         try:
             if os.path.islink(p) or os.path.isfile(p):
                 os.chmod(p, 0o600) if not os.path.islink(p) else None
